@@ -6,7 +6,11 @@ import LenaModel.Lemmas.C12Csv
 /-! # C12 — property theorems (histogram and graph arithmetic, scaling and conversions keep every cell)
 
 All theorems are about the executable model `LenaModel/Model/C12.lean` (+ `NArr.lean`) over exact rationals, for
-histograms of any dimension and shape, any contents, targets, weights and field names.  "Up to rounding" and the
+histograms of any dimension and shape, any contents, targets, weights and field names ("all inputs" = all values of
+the model types; on states the constructor rejects, e.g. empty axes, the model is not claimed to be the code).
+One-dimensional edges nested in a list (`[[x0, …]]`) are covered by `mkHistU`/`addU`/`toCsvHistU` and the theorems
+`addU_cellwise`, `addU_defined`, `csv_rows_1d_any`, `csv_rows_valid_1d` of `Props/C12Ext.lean`; the iterator,
+`scale`, `set_nevents`, `hist_to_graph` theorems here use `Edges.axes` only and hold for that format as they stand.  "Up to rounding" and the
 printed precision of CSV numbers are floating-point facts outside the model (DESIGN.md section 8); the harness
 checks them numerically on the real code.
 
@@ -72,7 +76,9 @@ example : (setScale exHist 10).toOption.map (fun h' => (values h'.bins, h'.nOut,
   decide +kernel
 
 /-- the recomputed scale after `hist.scale(s)` is `s`, when the old scale was the integral of the histogram (not a
-stale cached value) -/
+stale cached value).  `_partial`: the sentence "makes the recomputed scale equal s" without this hypothesis is false
+of the code (`hist_scale_recomputed_full`, `hist_scale_recomputed_full_false` in `Props/C12Ext.lean`: a stale stored
+`_scale` is used as the old scale — lena documents that the user must recompute after changing the contents). -/
 theorem hist_scale_recomputed_partial (h h' : Hist) (s : Q) (hs : setScale h s = .ok h')
     (hfresh : ∀ c, h.scale = some c → integral h.bins h.edges.axes = .ok c) :
     getScale h' true = .ok ({ h' with scale := some s }, s) := by
